@@ -20,7 +20,7 @@ import (
 // @   property C06
 // @   lemma
 // @   requires src != nil && dst != nil
-// @   ensures [error-iff] (result != nil) <==> !(start >= old(src.Offset) && end <= old(src.Offset) + old(len(src.Seq)) && (start <= end || (old(src.Conform) != 0 && end >= old(src.Offset) && start <= old(src.Offset) + old(len(src.Seq)))))
+// @   ensures [error-iff] (result != nil) <==> !(start >= old(src.Offset) && end <= old(src.Offset) + old(len(src.Seq)) && (start <= end || (old(src.Conform) > 0 && end >= old(src.Offset) && start <= old(src.Offset) + old(len(src.Seq)))))
 // @   ensures [linear]    result == nil && start <= end ==> len(dst.Seq) == end - start && dst.Offset == start && dst.Conform == 0 && forall k int :: 0 <= k && k < end - start ==> dst.Seq[k] == old(src.Seq[start - src.Offset + k])
 // @   ensures [circular-head] result == nil && start > end ==> len(dst.Seq) == old(len(src.Seq)) - (start - old(src.Offset)) + (end - old(src.Offset)) && dst.Offset == start && dst.Conform == 0
 // @   ensures [circular-a] result == nil && start > end ==> forall k int :: 0 <= k && k < old(len(src.Seq)) - (start - old(src.Offset)) ==> dst.Seq[k] == old(src.Seq[start - src.Offset + k])
@@ -53,7 +53,7 @@ func verifLemmaJoinLinear(dst, src *linear.Seq, where int) error {
 // @   property C06
 // @   lemma
 // @   requires src != nil && dst != nil
-// @   ensures [error-iff] (result != nil) <==> !(start >= old(src.Offset) && end <= old(src.Offset) + old(len(src.Seq)) && (start <= end || (old(src.Conform) != 0 && end >= old(src.Offset) && start <= old(src.Offset) + old(len(src.Seq)))))
+// @   ensures [error-iff] (result != nil) <==> !(start >= old(src.Offset) && end <= old(src.Offset) + old(len(src.Seq)) && (start <= end || (old(src.Conform) > 0 && end >= old(src.Offset) && start <= old(src.Offset) + old(len(src.Seq)))))
 // @   ensures [linear]    result == nil && start <= end ==> len(dst.Seq) == end - start && dst.Offset == start && dst.Conform == 0 && forall k int :: 0 <= k && k < end - start ==> dst.Seq[k] == old(src.Seq[start - src.Offset + k])
 // @   ensures [circular-head] result == nil && start > end ==> len(dst.Seq) == old(len(src.Seq)) - (start - old(src.Offset)) + (end - old(src.Offset)) && dst.Offset == start && dst.Conform == 0
 // @   ensures [circular-a] result == nil && start > end ==> forall k int :: 0 <= k && k < old(len(src.Seq)) - (start - old(src.Offset)) ==> dst.Seq[k] == old(src.Seq[start - src.Offset + k])
@@ -108,7 +108,7 @@ func verifLemmaComposeLinear(dst, src *linear.Seq, fs feat.Set) error {
 // @   property C07
 // @   lemma
 // @   requires src != nil && dst != nil && len(src.Seq) > 0
-// @   ensures [error-iff] (result != nil) <==> !(start >= old(src.Offset) && end <= old(src.Offset) + old(len(src.Seq)) && (start <= end || (old(src.Conform) != 0 && end >= old(src.Offset) && start <= old(src.Offset) + old(len(src.Seq)))))
+// @   ensures [error-iff] (result != nil) <==> !(start >= old(src.Offset) && end <= old(src.Offset) + old(len(src.Seq)) && (start <= end || (old(src.Conform) > 0 && end >= old(src.Offset) && start <= old(src.Offset) + old(len(src.Seq)))))
 // @   ensures [columns]   result == nil && start <= end ==> len(dst.Seq) == end - start && dst.Offset == start && dst.Conform == 0 && forall k int :: 0 <= k && k < end - start ==> dst.Seq[k] == old(src.Seq[start - src.Offset + k])
 // @   ensures [rejected]  result != nil ==> dst.Seq == old(dst.Seq) && dst.Offset == old(dst.Offset) && src.Seq == old(src.Seq)
 func verifLemmaTruncateAlignment(dst, src *alignment.Seq, start, end int) error {
